@@ -231,6 +231,15 @@ def gen_case(rng, tier, i):
     spec, info = _gen_lens(rng, family)
     case = dict(kind='random', family=family, spec=spec, info=info)
     case.update(_params(rng, family, spec))
+    if rng.random() < 0.2 and not case.get('clip'):
+        # the analysed lens is first used (traces, a spot diagram, paraxial queries), then edited through the public
+        # setters; the analysis must be that of the edited prescription (the oracle traces a lens built from scratch)
+        # (no thickness edits: an edited vertex position differs from the freshly summed one in the last bit, and the
+        #  analyses are compared bit for bit with the oracle lens's own traces)
+        ed = L.gen_edits(rng, spec, kinds=('index', 'radius', 'conic'))
+        # the edited lens must stay in the generator's class (positive power: the sign of f2 is C04's finding)
+        if ed and float(L.psys(L.apply_edits(None, spec, ed)).power()) > 0:
+            case['edits'] = ed
     return case
 
 
@@ -305,6 +314,17 @@ class Ctx:
         else:
             self.spec = case['spec']
             self.A = L.build(self.spec)
+            if case.get('edits'):
+                from optiland.analysis import SpotDiagram
+                wl0 = L.primary_wavelength(self.spec)
+                try:
+                    self.A.trace_generic(0.0, 0.5, 0.0, 0.5, wl0)
+                    self.A.trace(0.0, 1.0, wl0, 6, 'line_y')
+                    self.A.paraxial.EPL(); self.A.paraxial.f2(); self.A.paraxial.chief_ray()
+                    SpotDiagram(self.A, num_rings=2).rms_spot_radius()
+                except Exception:
+                    pass        # whatever the first use does is not judged; the analysis after the edit is
+                self.spec = L.apply_edits(self.A, self.spec, case['edits'])
             self.B = L.build(self.spec)
             self.sample = False
         spec = self.spec
@@ -867,6 +887,8 @@ def check_case(case, rec):
         rec.cls(*L.class_names(case['info']))
         rec.cls('vignetting-factors' if case['info'].get('vig') else 'no-vignetting')
         rec.cls(case['info'].get('img', 'img-plane'))
+        if case.get('edits'):
+            rec.cls('edited-after-first-use')
     rec.cls(f'family-{fam}', f'field-{ctx.ftype}', f'nwl-{len(ctx.lw)}')
     if 'dist' in c:
         rec.cls(f'dist-{c["dist"]}')
